@@ -197,6 +197,10 @@ class Interp:
             p = rv["place"]
             if not p["proj"]:
                 return ("ref", p["local"])
+            if len(p["proj"]) == 1 and p["proj"][0]["p"] == "deref":
+                base = env.get(p["local"])
+                if isinstance(base, tuple) and base[0] == "ref" and isinstance(base[1], int):
+                    return base             # reborrow `&mut *r` keeps pointing at the same local
             return ("ref", self.read(env, p))
         if k == "cast":
             x = self.operand(env, rv["x"])
@@ -337,7 +341,7 @@ class Interp:
                 elif name == "IntoIterator::into_iter" and isinstance(args[0], tuple) and args[0][0] == "iter":
                     env[dest] = args[0]
                 elif name == "Iterator::next" and isinstance(args[0], tuple) and args[0][0] == "ref" and \
-                        isinstance(env.get(args[0][1]), tuple) and env[args[0][1]][0] == "iter":
+                        isinstance(args[0][1], int) and isinstance(env.get(args[0][1]), tuple) and env[args[0][1]][0] == "iter":
                     _, items, idx = env[args[0][1]]
                     if idx < len(items):
                         env[args[0][1]] = ("iter", items, idx + 1)
